@@ -331,7 +331,7 @@ func sum(a []int) int {
 // variants) stays: neighbour kind -> int, neighbour tag -> none, neighbour
 // value -> zero, then the same for the field itself. The shrunk case is a real
 // failing case; its coordinates make the signature.
-func (ex *explorer) shrink(ti *typeInfo, vals []int, mask int, k fkey, bits uint32, cf *caseFails) (gens.StructSpec, []int, *caseFails) {
+func (ex *explorer) shrink(ti *typeInfo, vals []int, mask int, k fkey, bits uint32, cf *caseFails) (gens.StructSpec, []int, int, *caseFails) {
 	intKind := gens.KindIndex("int")
 	spec := append(gens.StructSpec{}, ti.spec...)
 	vs := append([]int{}, vals...)
@@ -347,24 +347,27 @@ func (ex *explorer) shrink(ti *typeInfo, vals []int, mask int, k fkey, bits uint
 		return true
 	}
 	simplify := func(j int) {
-		if spec[j].Kind != intKind {
-			s2 := append(gens.StructSpec{}, spec...)
-			s2[j].Kind = intKind
-			v2 := append([]int{}, vs...)
-			if v2[j] != 0 {
-				v2[j] = 1
+		for changed := true; changed; {
+			changed = false
+			if spec[j].Tag != 0 {
+				s2 := append(gens.StructSpec{}, spec...)
+				s2[j].Tag = 0
+				changed = try(s2, vs) || changed
 			}
-			try(s2, v2)
-		}
-		if spec[j].Tag != 0 {
-			s2 := append(gens.StructSpec{}, spec...)
-			s2[j].Tag = 0
-			try(s2, vs)
-		}
-		if vs[j] != 0 {
-			v2 := append([]int{}, vs...)
-			v2[j] = 0
-			try(spec, v2)
+			if spec[j].Kind != intKind {
+				s2 := append(gens.StructSpec{}, spec...)
+				s2[j].Kind = intKind
+				v2 := append([]int{}, vs...)
+				if v2[j] != 0 {
+					v2[j] = 1
+				}
+				changed = try(s2, v2) || changed
+			}
+			if vs[j] != 0 {
+				v2 := append([]int{}, vs...)
+				v2[j] = 0
+				changed = try(spec, v2) || changed
+			}
 		}
 	}
 	for j := range spec {
@@ -375,14 +378,24 @@ func (ex *explorer) shrink(ti *typeInfo, vals []int, mask int, k fkey, bits uint
 	if k.field >= 0 {
 		simplify(k.field)
 	}
-	return spec, vs, cf
+	// the simpler type may need fewer options
+	for again := true; again; {
+		again = false
+		for _, sm := range submasks(mask) {
+			if c := ex.subCase(spec, vs, sm); c.bits(k)&bits != 0 {
+				mask, cf, again = sm, c, true
+				break
+			}
+		}
+	}
+	return spec, vs, mask, cf
 }
 
 // report turns one minimal, unexplained discrepancy into a failure.
 func (ex *explorer) report(leg string, ti *typeInfo, vals []int, mask int, k fkey, bits uint32, cf *caseFails) {
 	spec, vs := ti.spec, vals
 	if leg == "value" {
-		spec, vs, cf = ex.shrink(ti, vals, mask, k, bits, cf)
+		spec, vs, mask, cf = ex.shrink(ti, vals, mask, k, bits, cf)
 		bits &= cf.bits(k)
 	}
 	encs, label, addr, indent := variantLabels(bits)
